@@ -289,7 +289,7 @@ def run_unit(unit, tier="quick", dev=False, only=None):
         new = [o for o in refuted if any(k not in known for k in o.finding_keys)]
         if new and not unit.get("no_playback"):
             pf = []
-            for o in new[: unit.get("max_replays", 8)]:
+            for o in new[: int(os.environ.get("VPV_MAX_REPLAYS") or unit.get("max_replays", 8))]:
                 pf += ["--harness", o.harness]
             cmd2 = ["cargo", "kani", "-Z", "function-contracts", "-Z", "stubbing", "-Z", "concrete-playback", "-Z", "unstable-options",
                     "--harness-timeout", f"{int(os.environ.get('VPV_HT') or unit.get('harness_timeout', 600))}s",
@@ -315,9 +315,9 @@ def run_unit(unit, tier="quick", dev=False, only=None):
                         o.detail = "Kani counterexample did not reproduce on the real code (native replay: holds) -> undecided. " + o.detail
                     elif not o.replay_reproduced:
                         o.violation_suffix = " native-replay=unavailable"
-                elif o in new[unit.get("max_replays", 8):]:
+                elif o in new[int(os.environ.get("VPV_MAX_REPLAYS") or unit.get("max_replays", 8)):]:
                     payload["counterexample"] = None
-                    payload["note"] = "counterexample extraction was limited to the first %d refuted obligations of this run; re-run with --only to extract this one" % unit.get("max_replays", 8)
+                    payload["note"] = "counterexample extraction was limited to the first %d refuted obligations of this run; re-run with --only to extract this one" % int(os.environ.get("VPV_MAX_REPLAYS") or unit.get("max_replays", 8))
                     o.violation_suffix = " counterexample-not-extracted(limit)"
                 else:
                     payload["counterexample"] = None
